@@ -468,6 +468,23 @@ func bodyC19(s *Sim) {
 		return
 	}
 	s.Stats.NonVacuous["C19.obeyed"]++
+	if cmd == "canary-validate" && s.rngEnv.IntN(2) == 0 && e.Spec.Strategy.Canary != nil {
+		// the template is edited right after the command, before the controller has seen it:
+		// the replica set of the newer template was never validated and must not be promoted
+		cur := letterOfTpl(&e.Spec.Template)
+		for _, l := range sortedKeys(def.Templates) {
+			if l != cur && s.ersByLetter(def, l) == nil {
+				s.userSetTemplate(def.NS, def.Name, l)
+				s.fairRounds(3)
+				if e2 := s.Store.GetEDS(def.NS, def.Name); e2 != nil {
+					if act := s.Store.GetERS(def.NS, e2.Status.ActiveReplicaSet); act != nil && letterOfTpl(&act.Spec.Template) == l {
+						s.Violate("C19", "obeys", "validate-then-edit", "canary %s was validated, then the template was changed to %s before any reconcile: the replica set of %s became active although it was never validated", canaryERS, l, l)
+					}
+				}
+				return
+			}
+		}
+	}
 	s.fairRounds(3)
 	e = s.Store.GetEDS(def.NS, def.Name)
 	if e == nil {
